@@ -5,10 +5,12 @@ import ast
 import os
 from fractions import Fraction
 
+from . import e2_formula as F
 from . import e7_rainir as R
 from . import c05sem as SEM
 from .core import AnchorError, Unsupported
 from .e1_srcmodel import dotted, walk_no_nested, utext
+from .e2_eval import is_unknown, need
 
 CFILE = "pyyeti/rainflow/c_rain.c"
 PYFILE = "pyyeti/rainflow/py_rain.py"
@@ -177,6 +179,64 @@ def r5_lockstep(ctx):
 
 def r6_value_flow(ctx):
     SEM.r6_value_flow(ctx, _load(ctx))
+
+
+def r9_wrapper_transparency(ctx):
+    """cyclecount.rainflow is the public entry point of the counter.  Whatever implementation was bound at import time and whatever module flags
+    exist, on EVERY path it must hand the caller's sequence itself to `rain.rainflow` (no filtering, re-sampling or re-ordering of the reversals:
+    the C and the Python implementation are only equivalent to ASTM E1049 on the sequence they are given) and return that call's table
+    (optionally wrapped in DataFrames).  Decided per syntactic path; unknown flags are explored both ways."""
+    from .sem import enumerate_paths
+    fn = ctx.src.func(CYC, "rainflow")
+    params = [a.arg for a in fn.args.args]
+    if not params or params[0] != "peaks":
+        raise AnchorError("cyclecount.rainflow(peaks, ...)")
+    P = F.sym("peaks")
+    G = F.sym("getoffsets")
+
+    def call(node, ev):
+        d = dotted(node.func) or ""
+        if d == "rain.rainflow":
+            return (F.sym("rf_table"), F.sym("os_table"))      # unpacked or not, the path tests below look at the arguments
+        if d in ("np.asarray", "np.atleast_1d", "np.ascontiguousarray", "np.array", "np.ravel") and node.args:
+            return ev.ev(node.args[0])
+        if d == "pd.DataFrame" and node.args:
+            return ev.ev(node.args[0])
+        return NotImplemented
+
+    npaths = 0
+    for decisions, S in enumerate_paths(ctx, fn, call=call):
+        if not S.ev.returns:
+            continue
+        npaths += 1
+        calls = S.calls("rain.rainflow")
+        how = ", ".join(f"{utext(t)}={v}" for t, v in decisions)
+        ok = len(calls) == 1
+        ctx.check(ok, "cyclecount.rainflow: exactly one call of the bound implementation on every path", S.ret_node(), None if ok else {"path": how, "calls": len(calls)},
+                  key="C05-R9|rainflow|number of calls")
+        if not ok:
+            continue
+        args = calls[0][1]
+        kws = calls[0][2]
+        a0 = args[0] if args else kws.get("peaks")
+        ok = a0 is not None and not is_unknown(a0) and not isinstance(a0, tuple) and need(a0).equals(P)
+        ctx.check(ok, "cyclecount.rainflow: the implementation receives the caller's sequence itself", calls[0][3],
+                  None if ok else {"path": how, "argument": repr(a0), "consequence": "the cycle table is that of another sequence (e.g. pre-filtered reversals)"},
+                  key="C05-R9|rainflow|peaks argument")
+        a1 = args[1] if len(args) > 1 else kws.get("getoffsets")
+        gdec = [v for t, v in decisions if utext(t) == "getoffsets"]
+        ok = a1 is not None and not is_unknown(a1) and not isinstance(a1, tuple) and (need(a1).equals(G) or (gdec and need(a1).equals(F.const(1 if gdec[0] else 0))))
+        ctx.check(ok, "cyclecount.rainflow: offsets are requested from the implementation exactly when the caller asks for them", calls[0][3],
+                  None if ok else {"path": how, "argument": repr(a1)}, key="C05-R9|rainflow|getoffsets argument")
+        ret = S.ret()
+        tables = {"rf_table", "os_table"}
+        if isinstance(ret, tuple):
+            ok = all((not is_unknown(x)) and repr(x) in tables for x in ret) and repr(ret[0]) == "rf_table"
+        else:
+            ok = ret is not None and not is_unknown(ret) and (repr(ret) == "rf_table" or S.same(ret, S.ev.ev(calls[0][3])))
+        ctx.check(ok, "cyclecount.rainflow: returns the implementation's table(s) unchanged (DataFrame wrapping aside)", S.ret_node(),
+                  None if ok else {"path": how, "returned": repr(ret)}, key="C05-R9|rainflow|returned tables")
+    ctx.check(npaths >= 4, "cyclecount.rainflow: at least the four getoffsets x use_pandas paths were evaluated", fn, npaths, nontrivial=False)
 
 
 def r7_selection(ctx):
@@ -547,6 +607,7 @@ RULES = [
     ("C05-R6", r6_value_flow, 40),
     ("C05-R7", r7_selection, 10),
     ("C05-R8", r8_buffers, 10),
+    ("C05-R9", r9_wrapper_transparency, 16),
 ]
 LEVEL = "translation_validation"
 TRUSTED = ["clang-14 front end (parser/preprocessor of c_rain.c, -ast-dump=json)", "CPython ast", "verifier/e7_rainir.py lowering",
@@ -563,7 +624,8 @@ MANIFEST = {
             "|p-q| < |r-s| (hence negation/shift/positive scaling act 'in the obvious way'), both entry points refuse L < 2 and dispatch identically, "
             "and (C05-R4, abstract interpretation of the shared IR with Karr's affine-equality domain plus template inequalities) for every L >= 2 every "
             "pts/cycle_index/peaks index lies in [0, L-1], every emitted row is below the allocated capacity, on exit rows == L - fullcyclesp1 which is "
-            "exactly the returned prefix, fullcyclesp1 - 1 is the number of count-1 rows and the counts sum to (L-1)/2. Not decided: numba's compilation, bit-level FP of the two compilers.",
+            "exactly the returned prefix, fullcyclesp1 - 1 is the number of count-1 rows and the counts sum to (L-1)/2; (C05-R9) on every syntactic path the public "
+            "wrapper cyclecount.rainflow hands the caller's sequence itself to the bound implementation and returns its tables unchanged. Not decided: numba's compilation, bit-level FP of the two compilers.",
     "note": "Trusted: clang-14 as parser of c_rain.c with the build's include paths; CPython ast; IEEE conformance of both compilers on identical expression trees.",
     "technique": "static translation validation: clang JSON AST and Python AST lowered to a common IR, structural isomorphism + comparison with an ASTM E1049 reference automaton; abstract interpretation (Karr affine equalities + template inequalities) for counter balance and buffer bounds",
 }
